@@ -871,7 +871,7 @@ fn run_subsets(plan: &Plan, lib: &dyn Lib, g: Grp, rec: &mut Rec, exhaustive: bo
         let so = rec.call(lib, g, Op::SigFromShares, &sig_args);
         let po = rec.call(lib, g, Op::PkFromShares, &pk_args);
         let ko = rec.call(lib, g, Op::Combine, &sk_args);
-        rec.case(&[3, g as u64, scheme as u64, t as u64, n as u64, k as u64, order.iter().fold(0u64, |a, i| a * 257 + *i as u64 + 1)], k != n);
+        rec.case(&[3, g as u64, scheme as u64, t as u64, n as u64, k as u64, order.iter().fold(0u64, |a, i| a.wrapping_mul(257).wrapping_add(*i as u64 + 1))], k != n);
         let idl: Vec<usize> = order.iter().map(|i| i + 1).collect();
         if k >= t {
             if k == t {
